@@ -216,3 +216,74 @@ func ZZVerifC11Close() {
 	nd.Assert(len(log.evs) == before, "C11/second-close-fires-nothing")
 	nd.Reach("C11/close-end")
 }
+
+// ZZVerifC11Seq: K symbolic append-error / kill / stop calls on the root or
+// on a shared or isolated child, issued in any order before the scopes are
+// closed (child first). An error or kill always fails the scope whose context
+// it reaches - also after a stop -, a stop alone never does; the close
+// protocol holds and Close reports an error iff the scope holds one.
+func ZZVerifC11Seq() {
+	nd.Schedule(nd.Param("SP", 0))
+	log := &zzLog{}
+	shape := nd.Choose("shape", 3) // 0 root only, 1 shared child, 2 isolated child
+	root := New(Params{Name: "root"})
+	zzListen(root, "root", log, "", -1)
+	var child app.Scope
+	if shape != 0 {
+		cp := ChildParams{Name: "child"}
+		if shape == 2 {
+			cp.ContextScope = contextscope.NewIsolated(root.BaseContextScope())
+		}
+		child = NewChild(root, cp)
+		zzListen(child, "child", log, "", -1)
+	}
+	rootFail, childFail := false, false
+	k := nd.Param("K", 3)
+	n := nd.Choose("nops", k+1)
+	for i := 0; i < n; i++ {
+		kind := nd.IntRange("kind", 0, 2) // 0 append error, 1 kill, 2 stop (symbolic)
+		target := root
+		onChild := shape != 0 && nd.Choose("on-child", 2) == 1
+		if onChild {
+			target = child
+		}
+		switch kind {
+		case 0:
+			target.AppendError(errors.New("failed"))
+		case 1:
+			target.Kill()
+		case 2:
+			target.Stop()
+		}
+		if kind != 2 {
+			if !onChild || shape == 1 {
+				rootFail = true
+			}
+			if onChild || shape == 1 {
+				childFail = true
+			}
+		}
+	}
+	var childErr error
+	if child != nil {
+		childErr = child.Close()
+	}
+	rootErr := root.Close()
+	zzCheckProtocol(log, "root", "C11/seq/root")
+	nd.Assert((rootErr != nil) == rootFail, "C11/seq/root-fails-iff-error-or-kill")
+	nd.Assert((log.count("root", app.RollbackEvent) == 1) == rootFail, "C11/seq/root-rollback-iff-error-or-kill")
+	nd.Assert((len(root.Errors()) > 0) == rootFail, "C11/seq/root-holds-error-iff-error-or-kill")
+	if child != nil {
+		zzCheckProtocol(log, "child", "C11/seq/child")
+		if childFail {
+			nd.Assert(childErr != nil, "C11/seq/child-fails-after-error-or-kill")
+			nd.Assert(log.count("child", app.RollbackEvent) == 1, "C11/seq/child-rollback-after-error-or-kill")
+		}
+		// an isolated child of a failed root may or may not have been killed
+		// by its watcher before it closed; otherwise it must succeed
+		if !childFail && !(shape == 2 && rootFail) {
+			nd.Assert(childErr == nil, "C11/seq/child-succeeds-without-error")
+		}
+	}
+	nd.Reach("C11/seq-end")
+}
